@@ -8,6 +8,7 @@ import Garnish.Driver.HeapDrv
 import Garnish.Driver.ListDrv
 import Garnish.Driver.OptDrv
 import Garnish.Driver.RunDrv
+import Garnish.Driver.CompileDrv
 open Garnish Garnish.Proto
 
 def numCase (f : List String) : String :=
@@ -48,6 +49,10 @@ def dispatch (f : List String) : String :=
   | some "PROG" => Garnish.Driver.progCase f
   | some "MULTI" => Garnish.Driver.multiCase f
   | some "WFCHK" => Garnish.Driver.wfCase f
+  | some "COMPILE" => Garnish.Driver.compileCase f
+  | some "WFCHECK" => Garnish.Driver.wfProgramCase f
+  | some "ABSDEPTH" => Garnish.Driver.absDepthCase f
+  | some "DEPTHCHK" => Garnish.Driver.depthChkCase f
   | _ => "UNKNOWN-SUITE"
 
 partial def loop (h : IO.FS.Stream) (out : IO.FS.Stream) : IO Unit := do
